@@ -172,6 +172,44 @@ CheckBlocked(e, line) ==
 CheckSnap(e, line) ==
   (e.pre = e.post) \/ Bad(line, "snapshot:" \o e.kind, "unchanged", "changed")
 
+(* ---- a session transaction recorded under concurrency: the calls fold over Database!Exec from the catalog *)
+(* that was current when the transaction was published (or started, if it was not published)               *)
+RECURSIVE RunSeq(_, _, _, _)
+RunSeq(db, calls, i, acc) ==       \* acc: [ok, ev, bad]
+  IF i > Len(calls) THEN [db |-> db, ev |-> acc.ev, bad |-> acc.bad]
+  ELSE LET cl == calls[i]  x == Exec(db, cl.op, cl.ns, cl.a) IN
+       RunSeq(x.db, calls, i + 1, [ev |-> acc.ev \o x.ev, bad |-> IF acc.bad = 0 /\ ~ResOK(cl.op, x.res, cl.res, cl.a) THEN i ELSE acc.bad])
+CheckSeq(e, line) ==
+  LET pre == ObsDb(e.pre)  post == ObsDb(e.post)
+      r == RunSeq(pre, e.calls, 1, [ev |-> <<>>, bad |-> 0])
+  IN /\ (r.bad = 0 \/ Bad(line, "result:transaction-call", r.bad, e.calls[r.bad].res))
+     /\ IF e.committed THEN /\ (r.db = post \/ Bad(line, "state:transaction", r.db, post))
+                             /\ (EvsOK(r.ev, e.ev) \/ Bad(line, "events:transaction", r.ev, e.ev))
+        ELSE (e.pre = e.post /\ e.ev = <<>>) \/ Bad(line, "visibility:discarded-transaction-changed-committed-state", e.pre, e.post)
+
+(* ---- the engine protocol (C16 / C04): the hook events of one run, in the order in which they happened.      *)
+(* holder: <<"free">>, <<"g", goroutine>> (slot acquired, transaction not yet created) or <<"t", transaction>>  *)
+Free == <<"free">>
+RECURSIVE ProtoFold(_, _, _, _)
+ProtoFold(evs, i, holder, alive) ==       \* [bad |-> index of the first event that breaks the protocol (0 = none), holder, alive]
+  IF i > Len(evs) THEN [bad |-> 0, holder |-> holder, alive |-> alive]
+  ELSE LET e == evs[i]
+           step ==
+             CASE e.p = "sem.acquired"     -> [ok |-> holder = Free, h |-> <<"g", e.g>>]          \* a token is taken only when the slot is free
+               [] e.p = "sem.release"      -> [ok |-> holder # Free, h |-> Free]                 \* a token is given back only by a holder
+               [] e.p = "begin.release"    -> [ok |-> holder = <<"g", e.g>>, h |-> holder]
+               [] e.p = "begin.write"      -> [ok |-> holder = <<"g", e.g>> /\ e.alive, h |-> <<"t", e.t>>]
+               [] e.p = "commit.enter"     -> [ok |-> holder = <<"t", e.t>>, h |-> holder]
+               [] e.p = "commit.publish"   -> [ok |-> holder = <<"t", e.t>> /\ e.alive, h |-> holder]  \* only the holder of the slot publishes
+               [] e.p = "abort.release"    -> [ok |-> holder = <<"t", e.t>>, h |-> holder]
+               [] OTHER                    -> [ok |-> TRUE, h |-> holder]
+       IN IF ~step.ok THEN [bad |-> i, holder |-> holder, alive |-> alive]
+          ELSE ProtoFold(evs, i + 1, step.h, IF e.p = "close.killed" THEN FALSE ELSE alive)
+CheckProto(e, line) ==
+  LET r == ProtoFold(e.events, 1, Free, TRUE) IN
+  /\ (r.bad = 0 \/ Bad(line, "protocol:" \o e.events[r.bad].p, r.holder, e.events[r.bad]))
+  /\ ((r.bad = 0 /\ e.quiescent) => (r.holder = Free \/ Bad(line, "protocol:writer-slot-not-released", Free, r.holder)))
+
 Checked == l # 0 => CASE Trace[l].fn = "call" -> CheckCall(Trace[l], l)
                       [] Trace[l].fn = "clean" -> CheckClean(Trace[l], l)
                       [] Trace[l].fn = "expire" -> CheckExpire(Trace[l], l)
@@ -180,5 +218,7 @@ Checked == l # 0 => CASE Trace[l].fn = "call" -> CheckCall(Trace[l], l)
                       [] Trace[l].fn = "txn" -> CheckTxn(Trace[l], l)
                       [] Trace[l].fn = "blocked" -> CheckBlocked(Trace[l], l)
                       [] Trace[l].fn = "snapcheck" -> CheckSnap(Trace[l], l)
+                      [] Trace[l].fn = "txnseq" -> CheckSeq(Trace[l], l)
+                      [] Trace[l].fn = "proto" -> CheckProto(Trace[l], l)
                       [] OTHER -> TRUE
 =============================================================================
